@@ -12,7 +12,7 @@ def mc_alloc(v, wd, tier):
     runs = [("PS = 16 Sizes = {1, 3, 5, 6, 14, 15, 16} Aligns = {1, 2} MaxOps = 5 MaxPages = 8", "page 16 units")]
     if tier == "thorough":
         runs.append(("PS = 16 Sizes = {1, 3, 5, 6, 14, 15, 16} Aligns = {1, 2} MaxOps = 6 MaxPages = 8", "page 16 units, 6 ops"))
-        runs.append(("PS = 12 Sizes = {2, 3, 4, 7, 10, 11, 12} Aligns = {1, 2, 4} MaxOps = 5 MaxPages = 8", "page 12 units, align 4"))
+        runs.append(("PS = 8 Sizes = {1, 2, 3, 5, 6, 7, 8} Aligns = {1, 2, 4} MaxOps = 5 MaxPages = 8", "page 8 units, align 4"))
     for consts, note in runs:
         cfg = f"""CONSTANTS {consts} FixD11 = TRUE
 SPECIFICATION Spec
@@ -27,31 +27,45 @@ CHECK_DEADLOCK FALSE
 
 
 def gen_replay_alloc(v, wd, tier):
-    ops = 5 if tier == "quick" else 6
-    consts = f"PS = 16 Sizes = {{1, 3, 5, 6, 14, 15, 16}} Aligns = {{1, 2}} MaxOps = {ops} MaxPages = 8 FixD11 = TRUE"
+    # 6 operations would be ~40 GB of sequences: the thorough tier widens the size / alignment menu instead
+    runs = [(16, "Sizes = {1, 3, 5, 6, 14, 15, 16} Aligns = {1, 2}")]
+    if tier == "thorough":
+        # page sizes must be powers of two (Layout::from_size_align(page, page)); 8 units = 64 bytes, 32 units = 256 bytes
+        runs.append((8, "Sizes = {1, 2, 3, 5, 6, 7, 8} Aligns = {1, 2, 4}"))
+        runs.append((32, "Sizes = {3, 8, 13, 16, 29, 31, 32} Aligns = {1, 4}"))
+    for k, (ps, menu) in enumerate(runs):
+        gen_replay_alloc_one(v, wd, ps, menu, 5, k)
+
+
+def gen_replay_alloc_one(v, wd, ps, menu, ops, k):
+    consts = f"PS = {ps} {menu} MaxOps = {ops} MaxPages = 8 FixD11 = TRUE"
     cfg = f"""CONSTANTS {consts}
 SPECIFICATION GSpec
 INVARIANT Emit
 CHECK_DEADLOCK FALSE
 """
-    beh = os.path.join(wd, "beh_alloc.txt")
+    beh = os.path.join(wd, f"beh_alloc{k}.txt")
     r = tlc("Gen_Alloc", cfg, wd, printed_to=beh)
     if not r.ok:
         raise vlib.ToolError("Gen_Alloc failed:\n" + r.tail)
-    shards, total = vlib.shard_lines(beh, wd, vlib.NCPU, prefix="sh_alloc_")
-    log(f"[C15] Gen_Alloc: {total} operation sequences ({ops} ops) in {r.wall:.1f}s")
-    outs = vlib.run_vh_parallel([["alloc", "replay", s, "--ps", "16"] for s in shards])
+    shards, total = vlib.shard_lines(beh, wd, vlib.NCPU, prefix=f"sh_alloc{k}_")
+    os.remove(beh)
+    log(f"[C15] Gen_Alloc: {total} operation sequences ({ops} ops, page {ps} units, {menu}) in {r.wall:.1f}s")
+    outs = vlib.run_vh_parallel([["alloc", "replay", s, "--ps", str(ps)] for s in shards])
+    for s in shards:
+        os.remove(s)
     tot = vlib.collect(v, outs, "alloc", "replaying allocator operation sequences")
     v.cov["traces_validated_against_impl"] += int(tot.get("replays", 0))
     v.cov["evaluations"] += int(tot.get("checks", 0))
     v.cov["distinct_nontrivial"] += int(tot.get("nontrivial", 0))
-    v.cov["alloc_sequences"] = total
+    v.cov["alloc_sequences"] = v.cov.get("alloc_sequences", 0) + total
     drift = int(tot.get("extra", {}).get("placement_drift", 0))
-    v.cov["mechanism_drift"] = drift
+    v.cov["mechanism_drift"] = v.cov.get("mechanism_drift", 0) + drift
     if drift:
         log(f"DRIFT mechanism=Alloc {drift} sequences placed differently from the transcribed first-fit algorithm "
             f"(contract-level safety still checked): e.g. {json.dumps(tot['extra'].get('drift_example'))[:300]}")
-    v.cov["samples"].extend(tot.get("samples", [])[:1])
+    if len(v.cov["samples"]) < 2:
+        v.cov["samples"].extend(tot.get("samples", [])[:1])
     report(v, tot, "alloc")
 
 
